@@ -25,6 +25,7 @@ func init() {
 			}
 			ruleC20P2(r, le, cut)
 			ruleC20P3(r, cut)
+			ruleFlushRendezvous(r, "P6")
 			ruleC20P4(r, le)
 			ruleC20P5(r, cut)
 		},
